@@ -607,7 +607,8 @@ def main(argv=None):
     rep = R.Report(PROP, tier, seed)
     items = [{"kind": "xhair", "timeout": 120 if q else 900, "section": 0}]
     fixed_list = [{"spe": 0, "dup": 1, "hgt": 1, "floss": 1, "sloss": 1}, {"spe": 1, "dup": 2, "hgt": "inf", "floss": 1, "sloss": 0},
-                  {"spe": 3, "dup": 2500000, "hgt": 1000003, "floss": 1, "sloss": 7}]      # a large penalty cost: the printed minimum has many digits
+                  {"spe": 3, "dup": 2500000, "hgt": 1000003, "floss": 1, "sloss": 7},      # a large penalty cost: the printed minimum has many digits
+                  {"spe": 3, "dup": 2 ** 53 + 3, "hgt": 3 * (2 ** 53 + 3) + 1, "floss": 2 ** 53 + 3, "sloss": 2}]   # integers no double can hold
     algos = ["lca", "thl", "exh", "base_spfs", "ext_spfs", "base_uspfs", "superdtl"]
     nin = 40 if q else 400
     for k in range(nin):
